@@ -50,6 +50,21 @@ func vpLoadFile(b []byte) (*Segment, *vpFile) {
 	return seg, f
 }
 
+// vpLoadedVariant returns seg itself, seg persisted and loaded from memory, or
+// persisted and loaded from file-backed storage (an io.ReaderAt: reads beyond
+// the end of the file fail instead of reslicing).
+func vpLoadedVariant(seg *Segment) *Segment {
+	switch vpChoice("loaded", 3) {
+	case 1:
+		return vpLoad(vpPersist(seg))
+	case 2:
+		vpNote("feat:file-backed")
+		l, _ := vpLoadFile(vpPersist(seg))
+		return l
+	}
+	return seg
+}
+
 // vpRoundTrip: persist, load from memory and from a file model, compare every read API.
 func vpRoundTrip(tag string, seg *Segment) {
 	probeF, probeT := []string{"zz"}, []string{"q"}
